@@ -1,13 +1,15 @@
 #!/bin/bash
-# usage: seedtest.sh <seeded-dir> [props...]   applies patch.diff to /repo, runs quick checks, reverts
+# usage: seedtest.sh <seeded-dir> [props...]
+# Applies <seeded-dir>/patch.diff in the scratch worktree /tmp/wt-seed (reset to /repo's HEAD),
+# runs the quick checks against it (VERIF_REPO), and resets the worktree. /repo is not touched.
 d=$1; shift
 props="$@"
 [ -z "$props" ] && props=$(python3 -c "import json;print(json.load(open('$d/meta.json'))['property'])")
-cd /repo || exit 2
-git diff --quiet || { echo "/repo dirty"; exit 2; }
-git apply "$d/patch.diff" || { echo "patch does not apply"; exit 2; }
+WT=/tmp/wt-seed
+[ -d $WT ] || git -C /repo worktree add -q --detach $WT HEAD
+git -C $WT checkout -q --detach $(git -C /repo rev-parse HEAD) && git -C $WT checkout -q -- . && git -C $WT clean -fdq
+git -C $WT apply "$d/patch.diff" || { echo "patch does not apply"; exit 2; }
 for p in $props; do
-  (cd /verif && VERIF_BUDGET_S=${BUDGET:-30} ./bin/check $p quick 2>&1 | grep -E "^(VIOLATION|KNOWN|violation|C[0-9]+ quick|check:)" | cut -c1-400 | head -8; echo "exit=${PIPESTATUS[0]}")
+  (cd /verif && VERIF_REPO=$WT VERIF_OUTDIR=/var/tmp/seedout VERIF_WORKERS=${WORKERS:-8} VERIF_BUDGET_S=${BUDGET:-30} ./bin/check $p quick 2>&1 | grep -E "^(VIOLATION|KNOWN|violation|C[0-9]+ quick|check:)" | cut -c1-300 | head -6; echo "exit=${PIPESTATUS[0]}")
 done
-git -C /repo checkout -- . 
-git -C /repo status --short | grep -v muinstaller
+git -C $WT checkout -q -- . && git -C $WT clean -fdq
